@@ -1,7 +1,7 @@
 #!/bin/bash
 # Apply each behaviour-preserving refactoring to the scratch worktree and run every quick check: expected silent (rc 0),
 # except B8 + C17 (same recorded race under a renamed function).
-W=/tmp/mw
+W=${VERIF_SCRATCH:-/tmp/mw}
 [ -d $W ] || git -C /repo worktree add -q --detach $W HEAD
 for p in /verif/seeded/benign/B*.diff; do
   (cd $W && git checkout -q -- . && git clean -fdq && git checkout -q --detach $(git -C /repo rev-parse HEAD) && git apply $p) || { echo "$p does not apply"; continue; }
